@@ -29,7 +29,7 @@ func main() {
 	dur := flag.Duration("dur", 3*time.Second, "how long")
 	workers := flag.Int("workers", 6, "updaters")
 	seed := flag.Uint64("seed", 1, "seed")
-	scenario := flag.String("scenario", "store", "store | runtime | push")
+	scenario := flag.String("scenario", "store", "store | runtime | push | reload")
 	flag.Parse()
 	vlib.QuietGlog()
 	switch *scenario {
@@ -38,6 +38,9 @@ func main() {
 		return
 	case "push":
 		scenarioPush(*dur)
+		return
+	case "reload":
+		scenarioReload(*dur, *seed)
 		return
 	}
 	st := metrics.NewStore()
